@@ -8,7 +8,7 @@ Line-protocol driver for C07 (timelines).  One operation per line, one canonical
   grid <start> <stop> <dt>                                      int((stop-start)/dt): asis (software float), spec (exact), Lean Float
   ord <date> | cal <n> | addm <date> <k> | y2d <year> | d2y <date> | rd <x>      calendar / float primitives
 
-numbers: `p/q` or `p` (the decimal the harness wrote); dates: `Dyyyy-mm-dd`; absent: `none`; the empty unit string: `~`.
+module unit `_` = not given; numbers: `p/q` or `p` (the decimal the harness wrote); dates: `Dyyyy-mm-dd`; absent: `none`; the empty unit string: `~`.
 Vectors are printed in units of time_eps (integers, after round_tvec) or as ISO dates.
 -/
 open StarsimModel StarsimModel.Calendar StarsimModel.Timeline StarsimModel.Proto
@@ -64,7 +64,7 @@ def stepLine (_ : Unit) (line : String) : Unit × String :=
       | some p => showRes (simTimeline .asis p) ++ " spec=" ++ showNpts (simTimeline .spec p)
       | none => "bad-op"
   | ["mod", u, st, sp, du, dt, mu, ms, mp, md] =>
-      match parseSim? u st sp du dt, parseOpt (fun s => some (parseUnitStr s)) mu, parseOpt parseTVal? ms,
+      match parseSim? u st sp du dt, (if mu = "_" then some none else some (some (parseUnitStr mu))), parseOpt parseTVal? ms,
             parseOpt parseTVal? mp, parseOpt parseNum? md with
       | some p, some mu, some ms, some mp, some md =>
           let run (v : Variant) : Except Err Timeline := do
